@@ -452,7 +452,17 @@ func underSchemaScope(info *types.Info, body *ast.BlockStmt, pm map[ast.Node]ast
 				return true
 			}
 		}
-		fl := enclosing(pm, cur, func(nd ast.Node) bool { _, ok := nd.(*ast.FuncLit); return ok })
+		// a guard established by an earlier `if <not schema-bound> { return … }` in the same function body
+		var fbody *ast.BlockStmt = body
+		fl, _ := enclosing(pm, cur, func(nd ast.Node) bool { _, ok := nd.(*ast.FuncLit); return ok }).(*ast.FuncLit)
+		if fl != nil {
+			fbody = fl.Body
+		}
+		if fbody != nil && fbody.Pos() <= cur.Pos() && cur.End() <= fbody.End() {
+			if newFlow(info, fbody).established(cur, func(e ast.Expr, val bool) bool { return scoped(e, val, 0) }) {
+				return true
+			}
+		}
 		if fl == nil {
 			break
 		}
